@@ -278,6 +278,26 @@ Theorem c08_source_sort_keys :
   map fst name_section_sorts = ["funcs"; "locals"; "types"; "tables"; "memories"; "globals"; "elements"; "data"; "map"]%string.
 Proof. repeat split; try reflexivity. repeat constructor. Qed.
 
+
+(* ================================================================== THE FIXPOINT AT BYTE LEVEL (Model/ModBytes.v, Proofs/BytesEnd.v):
+   [roundtrip_bytes] = the model's reader, parseM, emitM, the model's writer; walrus's output bytes are a fixpoint of it, for every configuration *)
+From WV Require Import Model.ModBytes Proofs.ModBytes Proofs.BytesEnd.
+Theorem c08_bytes_fixpoint :
+  forall (cf : config) (ver : str) (ilen : wins -> N) (bs b1 : list N) (w : wmod),
+    dec_wmod false bs = Some w -> ParseTotal.valid_stream w -> ModFix40.locals_in_range w ->
+    (forall (s : pst) (e : emitted), parseM cf ver w = POk s -> emitM (ps_m s) ilen nil = Ok e -> wf_wmod (em_secs e) = true) ->
+    roundtrip_bytes cf ver ilen bs = Some b1 -> roundtrip_bytes cf ver ilen b1 = Some b1.
+Proof. exact bytes_fixpoint. Qed.
+Theorem c08_bytes_round_trip_idempotent :
+  forall (cf : config) (ver : str) (ilen : wins -> N) (bs b1 : list N) (w : wmod),
+    dec_wmod false bs = Some w -> ParseTotal.valid_stream w -> ModFix40.locals_in_range w ->
+    (forall (s : pst) (e : emitted), parseM cf ver w = POk s -> emitM (ps_m s) ilen nil = Ok e -> wf_wmod (em_secs e) = true) ->
+    roundtrip_bytes cf ver ilen bs = Some b1 -> forall n : nat, (n >= 1)%nat -> roundtrips_bytes cf ver ilen n bs = Some b1.
+Proof. exact bytes_round_trip_idempotent. Qed.
+(* non-vacuity, by the theorem and again by computation: the round trip of the module with one of everything, with the encoder's real instruction lengths *)
+Example c08_bytes_fixpoint_example : roundtrip_bytes default_config ev_ver Bytes.ilen_total everything_out = Some everything_out.
+Proof. exact everything_out_is_fixpoint. Qed.
+
 Print Assumptions c08_emit_keeps_module.
 Print Assumptions c08_repeat.
 Print Assumptions c08_locals_order_free.
@@ -315,3 +335,6 @@ Print Assumptions c08_refutation_witness_has_local_out_of_range.
 Print Assumptions c08_module_fixpoint_all_configs.
 Print Assumptions c08_module_fixpoint_total_all_configs.
 Print Assumptions c08_round_trip_idempotent_all_configs.
+Print Assumptions c08_bytes_fixpoint.
+Print Assumptions c08_bytes_round_trip_idempotent.
+Print Assumptions c08_bytes_fixpoint_example.
